@@ -1,6 +1,6 @@
 (* TEMPORARY - replaced at merge.  Copy of PropertiesB.v (check parses Properties.v itself). *)
 From ZV.Common Require Import Base.
-From ZV.C01 Require Import ModelLz ModelRans ModelFse ProofsRans ProofsRansPar ProofsRansNorm ProofsLz.
+From ZV.C01 Require Import ModelLz ModelRans ModelFse ProofsRans ProofsRansPar ProofsRansNorm ProofsLz ProofsFse ProofsFseFrame.
 Open Scope N_scope.
 
 (* one rANS step: for a state in [L, 256 L) and a symbol with a slot, the encoder's new state is again in
@@ -126,3 +126,86 @@ Check lz_decode_encode :
   forall minl maxl data, maxl < W32 -> nlen data <= MAX_DECOMPRESSED_SIZE ->
   decompress (compress minl maxl data) = Some data.
 Print Assumptions lz_decode_encode.
+
+(* FseTable::encode_symbol: multiplying by the Alverson reciprocal of init_enc_symbol is an exact division for
+   every frequency 1..4096 and every state the renormalisation leaves (below 2^36 * freq); no u64 operation wraps;
+   the result is the plain rANS step *)
+Theorem alverson_exact :
+  forall start f x, 0 < f -> start + f <= 4096 -> 1 <= x -> x < FSE_XMAX_UNIT * f ->
+  fse_encode_symbol (init_enc_symbol start f) x = Some ((x / f) * 4096 + x mod f + start).
+Proof. exact fse_encode_exact. Qed.
+Check alverson_exact :
+  forall start f x, 0 < f -> start + f <= 4096 -> 1 <= x -> x < FSE_XMAX_UNIT * f ->
+  fse_encode_symbol (init_enc_symbol start f) x = Some ((x / f) * 4096 + x mod f + start).
+Print Assumptions alverson_exact.
+
+(* the limb version of mul_hi before the fix: for a one-slot symbol there is a reachable state on which its
+   middle sum exceeds 2^64 (panic in a checked build) and the wrapped result is not the high word *)
+Theorem fse_mul_hi_old_refuted :
+  exists x, 1 <= x /\ x < FSE_XMAX_UNIT * 1 /\
+            W64 <= mul_hi_old_middle x (e_rcp (init_enc_symbol 0 1)) /\
+            mul_hi_old x (e_rcp (init_enc_symbol 0 1)) <> mul_hi x (e_rcp (init_enc_symbol 0 1)).
+Proof. exact mul_hi_old_refuted_proof. Qed.
+Check fse_mul_hi_old_refuted :
+  exists x, 1 <= x /\ x < FSE_XMAX_UNIT * 1 /\
+            W64 <= mul_hi_old_middle x (e_rcp (init_enc_symbol 0 1)) /\
+            mul_hi_old x (e_rcp (init_enc_symbol 0 1)) <> mul_hi x (e_rcp (init_enc_symbol 0 1)).
+Print Assumptions fse_mul_hi_old_refuted.
+
+(* the payload coder: states stay in [1, 2^48), bytes are written four at a time, states below 2^16 occur only
+   before the first write (so the decoder's "x < 2^16 and 4 bytes left" reads exactly what was written), only
+   covered payloads are encoded, and decoding from the final state returns the payload *)
+Theorem fse_core_roundtrip :
+  forall t d x rout, fse_wf t -> fse_enc_all t d = Some (x, rout) ->
+  fse_inv x rout /\ covers t d /\ fse_dec_all t (length d) x rout = d.
+Proof. exact fse_enc_all_inv. Qed.
+Check fse_core_roundtrip :
+  forall t d x rout, fse_wf t -> fse_enc_all t d = Some (x, rout) ->
+  fse_inv x rout /\ covers t d /\ fse_dec_all t (length d) x rout = d.
+Print Assumptions fse_core_roundtrip.
+
+Theorem fse_encode_refuses :
+  forall t d, ~ covers t d -> fse_enc_all t d = None.
+Proof. exact fse_enc_all_refuses. Qed.
+Check fse_encode_refuses :
+  forall t d, ~ covers t d -> fse_enc_all t d = None.
+Print Assumptions fse_encode_refuses.
+
+Theorem fse_encode_defined :
+  forall t d, fse_wf t -> covers t d -> exists st, fse_enc_all t d = Some st.
+Proof. exact fse_enc_all_defined. Qed.
+Check fse_encode_defined :
+  forall t d, fse_wf t -> covers t d -> exists st, fse_enc_all t d = Some st.
+Print Assumptions fse_encode_defined.
+
+(* one block (compress_single_internal / decompress_single): stored path below 100 bytes, otherwise header with the
+   raw counts + payload + final state; for EVERY normaliser (FseTable::new is a parameter) that returns a table with
+   sum <= 4096 for these counts *)
+Theorem fse_single_roundtrip :
+  forall norm raw t d z,
+  norm raw = Some t -> fse_wf t -> length raw = 256%nat -> Forall (fun x => x < W32) raw ->
+  nlen d <= MAX_DECOMPRESSED_SIZE ->
+  fse_compress_single norm raw d = Some z -> fse_decompress_single norm z = Some d.
+Proof. exact fse_single_roundtrip_proof. Qed.
+Check fse_single_roundtrip :
+  forall norm raw t d z,
+  norm raw = Some t -> fse_wf t -> length raw = 256%nat -> Forall (fun x => x < W32) raw ->
+  nlen d <= MAX_DECOMPRESSED_SIZE ->
+  fse_compress_single norm raw d = Some z -> fse_decompress_single norm z = Some d.
+Print Assumptions fse_single_roundtrip.
+
+(* FseEncoder::compress / FseDecoder::decompress with or without parallel blocks, any block size: a single block is
+   never mistaken for a container, a container (at most 64 blocks since the fix) is always recognised and every
+   block decodes *)
+Theorem fse_roundtrip :
+  forall norm par bs raw t d z,
+  norm raw = Some t -> fse_wf t -> length raw = 256%nat -> Forall (fun x => x < W32) raw ->
+  nlen d <= MAX_DECOMPRESSED_SIZE ->
+  fse_compress norm par bs raw d = Some z -> fse_decompress norm z = Some d.
+Proof. exact fse_roundtrip_proof. Qed.
+Check fse_roundtrip :
+  forall norm par bs raw t d z,
+  norm raw = Some t -> fse_wf t -> length raw = 256%nat -> Forall (fun x => x < W32) raw ->
+  nlen d <= MAX_DECOMPRESSED_SIZE ->
+  fse_compress norm par bs raw d = Some z -> fse_decompress norm z = Some d.
+Print Assumptions fse_roundtrip.
